@@ -111,7 +111,7 @@ def render_all(txns, w, views=False):
                 O.fail('C12.json.figure.spending', w, round(figures['spending_total'], 2), js['gross_spending'], 'export_json summary vs analysed stats')
             if abs(js['total_spending'] - (figures['spending_total'] - figures['credits_total'])) > 0.005:
                 O.fail('C12.json.figure.net_spending', w, round(figures['spending_total'] - figures['credits_total'], 2), js['total_spending'], 'export_json summary total_spending vs spending - credits')
-            if js['net_cash_flow'] is not None and abs(js['net_cash_flow'] - figures['cash_flow']) > 0.005:
+            if js['net_cash_flow'] is None or abs(js['net_cash_flow'] - figures['cash_flow']) > 0.005:
                 O.fail('C12.json.figure.cash_flow', w, round(figures['cash_flow'], 2), js['net_cash_flow'], 'export_json summary vs analysed stats')
             if abs(js['transfers_total'] - abs(figures['transfers_net'])) > 0.005:
                 O.fail('C12.json.figure.transfers', w, round(abs(figures['transfers_net']), 2), js['transfers_total'], 'export_json summary vs analysed stats')
